@@ -61,6 +61,8 @@ type FnRun struct {
 	topFrame      *Frame
 	lemmaRun      bool
 	inInit        bool
+	snaps         map[string]*State
+	constCells    map[string]Term
 	globalsChecked map[string]bool
 	frameN        int
 }
@@ -75,7 +77,7 @@ func (e *Engine) NewRun(fn *ssa.Function, c *Contract) *FnRun {
 	r := &FnRun{Eng: e, Sc: sc, TM: NewTypeMap(sc, ModulePath), Heap: NewHeap(sc), Fn: fn, Contract: c,
 		Trusted: map[string]bool{}, Notes: map[string]bool{}, Inlined: map[string]bool{}, addrTable: map[string]*Loc{},
 		closures: map[string]*closureInfo{}, funcRefs: map[string]*ssa.Function{}, factsDone: map[string]bool{}, nameCount: map[string]int{},
-		globalsChecked: map[string]bool{}, trackTypes: map[string]types.Type{}, UsedContracts: map[string]bool{}, SpecFuns: map[string]bool{}}
+		globalsChecked: map[string]bool{}, snaps: map[string]*State{}, constCells: map[string]Term{}, trackTypes: map[string]types.Type{}, UsedContracts: map[string]bool{}, SpecFuns: map[string]bool{}}
 	return r
 }
 
